@@ -1,5 +1,8 @@
 """C02 — pg.List / pg.Dict vs built-in list / dict under every mutation history."""
+import collections
 import copy
+import operator
+import types
 
 import pyglove as pg
 from pgverif.gen import desc as D
@@ -24,11 +27,28 @@ RULE = ('case = one value-spec-less pg.List or pg.Dict (0-6 initial members, str
         'on, off (pg.notify_on_change(False)) or skip_notification=True; mirrored '
         'on a built-in (nested) list/dict; outcome and all read paths (incl. the '
         'JSON value and JSON string round trips) of the root and of one nested '
-        'container compared after every step. Non-trivial = at least 5 steps '
+        'container compared after every step. OPERAND FORMS: every plain container '
+        'written (initial members, operands at any depth) is a built-in dict/list or, 35% '
+        'each, an instance of a dict/list SUBCLASS (OrderedDict, defaultdict, user '
+        'classes Rec(dict), Row(list)); sequence / mapping arguments of the constructors, '
+        'extend, +=, slice assignment, +, update, |=, | come as every kind Python accepts '
+        'there (list, tuple, generator, iterator, list subclass; dict, dict subclasses, '
+        'MappingProxyType, UserDict, pairs as list/tuple/lists/generator/zip, kwargs '
+        'mixes). After every step reads go THROUGH the stored members: each member that is '
+        'a container in the reference must be a pg.Dict / pg.List (documented extension), '
+        'nested locations are read by path (sym_get with KeyPath / str, KeyPath.query, '
+        'chained []), and the step after a write of a member container is with 35% (else '
+        '8%) a rebind with one or several paths of depth >= 2 drawn from the reference, '
+        'through the member just written, issued on the root or an ancestor. Non-trivial = at least 5 steps '
         'changed the container; distinct by (operation sequence, final contents).')
 REQUIRED_COUNTERS = ['steps', 'read_checks', 'outcome_both_raise', 'outcome_both_ok',
                      'steps_notify_off', 'multi_member_rebinds', 'multi_member_rebinds_notify_off',
-                     'nested_read_rounds']
+                     'nested_read_rounds', 'member_symbolic_checks', 'path_read_checks',
+                     'through_rebinds', 'through_rebinds_multi_path',
+                     'through_rebinds_into_just_written_member',
+                     'steps_dict-subclass-operand', 'steps_list-subclass-operand',
+                     'steps_iterable-argument', 'steps_mapping-argument',
+                     'steps_pairs-argument', 'steps_dict-subclass-argument']
 ASSUMPTIONS = [
     'CPython list/dict semantics are the reference',
     'documented extensions are modelled: MISSING_VALUE deletes, rebind past the end appends, Insertion inserts, plain containers become symbolic',
@@ -36,6 +56,12 @@ ASSUMPTIONS = [
     'NaN is not used as a value (identity vs equality is not part of the claim)',
     'several writes of one batch into a list other than the rebind receiver contain no Insertion and no index past the end (positions relative to the call-time list only then)',
     'change notification (scope flag, skip_notification, notify_parents) is not part of container semantics: the same reference applies',
+    'only instances of dict / list subclasses count as plain containers that become symbolic '
+    '(isinstance, as documented); other mappings / sequences (UserDict, MappingProxyType, '
+    'tuple, generators) are used as ARGUMENTS that are iterated, never as stored members',
+    'list + non-list and dict | non-dict are TypeErrors of the reference and not generated '
+    '(not index/key errors); a through-path rebind has one write per member container, no '
+    'insertion / deletion inside a list',
     'JSON marker collisions (str keys starting with n_:, the key _type, a list starting with the str __tuple__) are C05 findings and not generated',
 ]
 
@@ -174,6 +200,280 @@ def initial(rng):
   return ['D', [[k, val(0)] for k in ks]]
 
 
+# ---------------------------------------------------------------------------
+# Operand FORMS. A plain container operand is a dict / list or an instance of
+# a SUBCLASS of dict / list (what json.loads(object_pairs_hook=OrderedDict),
+# collections.defaultdict or a user class hand over); description:
+# ['d', items, form] / ['l', items, form]. The reference treats all of them as
+# the dict / list they are. Sequence and mapping ARGUMENTS (extend, +=, slice
+# assignment, update, |=, constructors) also come as every kind of iterable /
+# mapping / iterable of pairs Python's own list / dict accept there.
+
+class Row(list):
+  """A user list subclass."""
+
+
+class Rec(dict):
+  """A user dict subclass."""
+
+
+DICT_FORMS = ('od', 'dd', 'rec')
+LIST_FORMS = ('row',)
+P_FORM = 0.35
+
+
+def mk_dict(form, items):
+  if form == 'od':
+    return collections.OrderedDict(items)
+  if form == 'dd':
+    return collections.defaultdict(int, items)
+  if form == 'rec':
+    return Rec(items)
+  return dict(items)
+
+
+def with_forms(rng, d, p=P_FORM):
+  """Gives plain containers of a description a subclass form (at any depth)."""
+  k = d[0]
+  if k in ('D', 'd'):
+    out = [k, [[kk, with_forms(rng, v, p)] for kk, v in d[1]]] + list(d[2:])
+    if k == 'd' and len(out) == 2 and rng.random() < p:
+      out.append(rng.choice(DICT_FORMS))
+    return out
+  if k in ('L', 'l'):
+    out = [k, [with_forms(rng, v, p) for v in d[1]]] + list(d[2:])
+    if k == 'l' and len(out) == 2 and rng.random() < p:
+      out.append(rng.choice(LIST_FORMS))
+    return out
+  if k == 'ins':
+    return ['ins', with_forms(rng, d[1], p)]
+  return d
+
+
+def forms_in(x, out=None):
+  """Subclass forms named anywhere in a description / argument structure."""
+  out = set() if out is None else out
+  if isinstance(x, dict):
+    for v in x.values():
+      forms_in(v, out)
+  elif isinstance(x, list):
+    if (len(x) == 3 and x[0] in ('d', 'l') and isinstance(x[1], list)
+        and isinstance(x[2], str)):
+      out.add(x[2])
+    for v in x:
+      forms_in(v, out)
+  return out
+
+
+def strip_forms(x):
+  """The same arguments with every operand in its built-in form."""
+  if isinstance(x, dict):
+    y = {k: strip_forms(v) for k, v in x.items()}
+    if 'seq' in y:
+      y['seq'] = 'list'
+    if 'map' in y:
+      y['map'] = 'dict'
+    if y.get('form') in MAP_FORMS and 'items' in y:
+      y['form'] = 'pairs' if y['form'] in PAIR_FORMS else 'dict'
+    return y
+  if isinstance(x, list):
+    if (len(x) == 3 and x[0] in ('d', 'l') and isinstance(x[1], list)
+        and isinstance(x[2], str)):
+      x = x[:2]
+    return [strip_forms(v) for v in x]
+  return x
+
+
+def build2(desc, forest=None):
+  """D.build plus the subclass forms of plain containers."""
+  k = desc[0]
+  if k == 'd':
+    return mk_dict(desc[2] if len(desc) > 2 else None,
+                   [(kk, build2(v, forest)) for kk, v in desc[1]])
+  if k == 'l':
+    items = [build2(v, forest) for v in desc[1]]
+    return Row(items) if len(desc) > 2 else items
+  if k == 'D':
+    return pg.Dict({kk: build2(v, forest) for kk, v in desc[1]})
+  if k == 'L':
+    return pg.List([build2(v, forest) for v in desc[1]])
+  if k == 'ins':
+    return pg.Insertion(build2(desc[1], forest))
+  return D.build(desc, forest)
+
+
+FORM_NAMES = {'od': 'OrderedDict', 'dd': 'defaultdict', 'rec': 'Rec', 'row': 'Row'}
+
+
+def show2(desc):
+  k = desc[0]
+  if k in ('D', 'd'):
+    body = '{%s}' % ', '.join(f'{kk!r}: {show2(v)}' for kk, v in desc[1])
+    if k == 'D':
+      return f'pg.Dict({body})'
+    return f'{FORM_NAMES[desc[2]]}({body})' if len(desc) > 2 else body
+  if k in ('L', 'l'):
+    body = '[%s]' % ', '.join(show2(v) for v in desc[1])
+    if k == 'L':
+      return f'pg.List({body})'
+    return f'{FORM_NAMES[desc[2]]}({body})' if len(desc) > 2 else body
+  if k == 'ins':
+    return f'Insertion({show2(desc[1])})'
+  return D.show(desc)
+
+
+def show_step2(step):
+  def sa(v):
+    if isinstance(v, list) and v and isinstance(v[0], str) and v[0] in (
+        'v', 'D', 'L', 'd', 'l', 'node', 'missing', 'ins', 't'):
+      try:
+        return show2(v)
+      except Exception:  # a key list that happens to look like a description
+        pass
+    if isinstance(v, list):
+      return '[' + ', '.join(sa(x) for x in v) + ']'
+    return repr(v)
+  args = ', '.join(f'{k}={sa(v)}' for k, v in step['args'].items())
+  sc = (' in ' + '+'.join(step['scopes'])) if step.get('scopes') else ''
+  return f"root{step['at'][0]}{step['at'][1]}.{step['op']}({args}){sc}"
+
+
+SEQ_FORMS = ('list', 'tuple', 'gen', 'iter', 'row')
+DICT_ARG_FORMS = ('dict', 'od', 'dd', 'rec')
+PAIR_FORMS = ('pairs', 'pairs-tuple', 'pairs-lists', 'pairs-gen', 'zip')
+MAP_FORMS = DICT_ARG_FORMS + ('proxy', 'userdict') + PAIR_FORMS
+
+
+def wrap_seq(form, items):
+  if form == 'tuple':
+    return tuple(items)
+  if form == 'gen':
+    return (x for x in items)
+  if form == 'iter':
+    return iter(items)
+  if form == 'row':
+    return Row(items)
+  return items
+
+
+def wrap_map(form, items):
+  """A mapping / iterable of pairs holding `items` ([(key, value)...])."""
+  if form in DICT_ARG_FORMS:
+    return mk_dict(form, items)
+  if form == 'proxy':
+    return types.MappingProxyType(dict(items))
+  if form == 'userdict':
+    return collections.UserDict(dict(items))
+  if form == 'pairs-tuple':
+    return tuple(tuple(kv) for kv in items)
+  if form == 'pairs-lists':
+    return [list(kv) for kv in items]
+  if form == 'pairs-gen':
+    return ((k, v) for k, v in items)
+  if form == 'zip':
+    return zip([k for k, _ in items], [v for _, v in items])
+  return [tuple(kv) for kv in items]
+
+
+def _seq(a, B):
+  return wrap_seq(a.get('seq'), [B(v) for v in a['vs']])
+
+
+def _update(d, a, B):
+  items = [(k, B(v)) for k, v in a['items']]
+  form = a['form']
+  if form == 'kwargs':
+    return d.update(**dict(items))
+  if form == 'dict+kwargs':
+    return d.update(dict(items[:1]), **dict(items[1:]))
+  if form == 'pairs+kwargs':
+    return d.update(items[:1], **dict(items[1:]))
+  return d.update(wrap_map(form, items))
+
+
+def _ior(d, a, B):
+  other = wrap_map(a.get('map', 'dict'), [(k, B(v)) for k, v in a['items']])
+  if a['form'] == 'operator':
+    return operator.ior(d, other)
+  r = d.__ior__(other)
+  return d if r is NotImplemented else r
+
+
+def _iadd(l, a, B):
+  return operator.iadd(l, _seq(a, B)) if a['form'] == 'operator' else l.__iadd__(_seq(a, B))
+
+
+# The same call text drives the symbolic container and the reference.
+FORM_OPS = {
+    'List.extend': lambda x, a, B: x.extend(_seq(a, B)),
+    'List.__iadd__': _iadd,
+    'List.__setitem__[slice]': lambda x, a, B: operator.setitem(x, O.mkslice(a), _seq(a, B)),
+    'List.__add__': lambda x, a, B: x + _seq(a, B),
+    'Dict.update': _update,
+    'Dict.__ior__': _ior,
+    'Dict.__or__': lambda x, a, B: x | wrap_map(a.get('map', 'dict'),
+                                                [(k, B(v)) for k, v in a['items']]),
+}
+
+
+def add_arg_forms(rng, name, args):
+  """Draws the form of a sequence / mapping argument (legal for list/dict)."""
+  if rng.random() < 0.5:
+    return
+  if name in ('List.extend', 'List.__iadd__', 'List.__setitem__[slice]'):
+    args['seq'] = rng.choice(SEQ_FORMS)
+  elif name == 'List.__add__':
+    args['seq'] = rng.choice(['list', 'row'])        # list + non-list is a TypeError
+  elif name == 'Dict.update':
+    if args['form'] in ('dict', 'pairs'):
+      args['form'] = rng.choice(MAP_FORMS)
+    elif args['form'] == 'dict+kwargs' and rng.random() < 0.5:
+      args['form'] = 'pairs+kwargs'
+  elif name == 'Dict.__ior__':
+    args['map'] = rng.choice(MAP_FORMS)
+  elif name == 'Dict.__or__':
+    if len({k for k, _ in args['items']}) == len(args['items']):
+      args['map'] = rng.choice(DICT_ARG_FORMS)       # dict | non-dict is a TypeError
+
+
+def execute2(forest, step):
+  """O.execute with the operand forms of this module."""
+  B = lambda d: build2(d, forest)
+  run = FORM_OPS.get(step['op']) or O.OPS[step['op']].run
+  try:
+    node = D.resolve(forest, step['at'][0], step['at'][1])
+    with O.scopes(step.get('scopes', ())):
+      return 'ok', run(node, step['args'], B)
+  except Exception as e:  # pylint: disable=broad-except
+    return 'raise', e
+
+
+LIST_CTOR_FORMS = ('list', 'tuple', 'gen', 'iter', 'row')
+DICT_CTOR_FORMS = MAP_FORMS + ('kwargs', 'dict+kwargs')
+
+
+def build_root(d0, ctor):
+  """The container under test, its initial members handed to the constructor
+  as `ctor` says."""
+  if d0[0] == 'L':
+    return pg.List(wrap_seq(ctor, [build2(v) for v in d0[1]]))
+  items = [(k, build2(v)) for k, v in d0[1]]
+  if ctor == 'kwargs':
+    return pg.Dict(**dict(items))
+  if ctor == 'dict+kwargs':
+    return pg.Dict(dict(items[:1]), **dict(items[1:]))
+  return pg.Dict(wrap_map(ctor, items))
+
+
+def gen_ctor(rng, d0):
+  if rng.random() < 0.4:
+    return 'list' if d0[0] == 'L' else 'dict'
+  if d0[0] == 'L':
+    return rng.choice(LIST_CTOR_FORMS)
+  ok = all(isinstance(k, str) and k.isidentifier() for k, _ in d0[1])
+  return rng.choice([f for f in DICT_CTOR_FORMS if ok or 'kwargs' not in f])
+
+
 class Values:
   """Operand source for C02 (plain and symbolic containers, aliases)."""
 
@@ -192,8 +492,8 @@ class Values:
         return ['node', ri, ks]
     if r < 0.6:
       return ['v', leaf(rng)]
-    return vary_keys_in_desc(rng, D.gen(rng, 2, leaf=leaf, classes=(), typed=False,
-                                        leaves=False, int_keys=True))
+    return with_forms(rng, vary_keys_in_desc(
+        rng, D.gen(rng, 2, leaf=leaf, classes=(), typed=False, leaves=False, int_keys=True)))
 
 
 def rebind_ok(step, node):
@@ -338,9 +638,99 @@ def vary_arg_keys(rng, name, args):
         it[0] = k2
 
 
-def gen_step(rng, forest, p_multi=0.0):
+def model_containers(m, max_depth=4):
+  """Key sequences (depth >= 1) of the containers nested in the reference."""
+  out = []
+  def walk(n, path):
+    for k, v in (n.items() if isinstance(n, dict) else enumerate(n)):
+      if isinstance(v, (dict, list)):
+        out.append(path + [k])
+        if len(path) + 1 < max_depth:
+          walk(v, path + [k])
+  walk(m, [])
+  return out
+
+
+def written_containers(before, after):
+  """Paths of the member containers of `after` that the last step wrote (absent
+  from, or different in, the contents before the step)."""
+  out = []
+  for path in model_containers(after):
+    old, new = before, after
+    try:
+      for k in path:
+        old = old[k]
+        new = new[k]
+      if type(old) is not type(new) or old != new:
+        out.append(path)
+    except (KeyError, IndexError, TypeError):
+      out.append(path)
+  return out
+
+
+def gen_through_rebind(rng, forest, model, prefer=()):
+  """One rebind whose path(s) lead THROUGH stored member containers: issued on
+  the root or on an ancestor at least two levels above the written location.
+  Targets are drawn from the reference (what the container should hold), one
+  write per member container, no insertions / deletions inside lists, so that
+  the outcome does not depend on the order in which a batch is applied."""
+  conts = model_containers(model[0])
+  if not conts:
+    return None
+  rng.shuffle(conts)
+  if prefer and rng.random() < 0.75:
+    # through a member the previous step has just written
+    first = rng.choice(list(prefer))
+    conts = [first] + [p for p in conts if p != first]
+  g = O.GenEnv(rng, Values(forest, (0, [])), forest)
+  ups, used = [], []
+  for path in conts[:rng.choice([1, 1, 2, 3])]:
+    mc = model[0]
+    for k in path:
+      mc = mc[k]
+    if isinstance(mc, list):
+      n = len(mc)
+      key = rng.randrange(n) if n and rng.random() < 0.6 else n + rng.choice([0, 0, 2])
+      v = g.value(None, key)
+    else:
+      keys = list(mc.keys())
+      r = rng.random()
+      if keys and r < 0.5:
+        key = rng.choice(keys)
+      else:
+        key = keygen(rng)
+      v = ['missing'] if (key in keys and rng.random() < 0.25) else g.value(None, key)
+    rel = path + [key]
+    if v[0] == 'node' or any(rel[:len(u)] == u or u[:len(rel)] == rel for u in used):
+      continue
+    used.append(rel)
+    ups.append([rel, v])
+  if not ups:
+    return None
+  # receiver: the root, or the deepest common ancestor kept >= 2 levels above
+  j = 0
+  if rng.random() < 0.3:
+    common = ups[0][0][:-2]
+    for rel, _ in ups[1:]:
+      i = 0
+      while i < len(common) and i < len(rel) - 2 and rel[i] == common[i]:
+        i += 1
+      common = common[:i]
+    j = rng.randint(0, len(common))
+  at = ups[0][0][:j]
+  ups = [[rel[j:], v] for rel, v in ups]
+  rng.shuffle(ups)
+  return {'op': 'rebind', 'at': [0, at], 'through': True,
+          'args': {'updates': ups, 'opts': {}, 'form': 'dict',
+                   'style': rng.choice(['keypath', 'str']),
+                   'api': rng.choice(['rebind', 'rebind', 'sym_rebind'])}}
+
+
+def gen_step(rng, forest, p_multi=0.0, model=None, p_through=0.0, prefer=()):
   step = None
-  if rng.random() < p_multi:
+  if model is not None and rng.random() < p_through:
+    step = gen_through_rebind(rng, forest, model, prefer)
+  if step is None and rng.random() < p_multi:
     for _ in range(5):
       step = gen_multi_rebind(rng, forest)
       if step is None:
@@ -361,6 +751,7 @@ def gen_step(rng, forest, p_multi=0.0):
     if args is None:
       continue
     vary_arg_keys(rng, o.name, args)
+    add_arg_forms(rng, o.name, args)
     step = {'op': o.name, 'at': [ridx, keys], 'args': args}
     if o.name == 'rebind':
       args['opts'] = {}
@@ -385,7 +776,8 @@ def model_execute(model, step):
     node = node[k]
   BP = lambda d: R.build_plain(d, model)
   try:
-    return 'ok', R.MODEL_OPS[step['op']](node, step['args'], BP), node
+    fn = FORM_OPS.get(step['op']) or R.MODEL_OPS[step['op']]
+    return 'ok', fn(node, step['args'], BP), node
   except Exception as e:  # pylint: disable=broad-except
     return 'raise', e, node
 
@@ -465,6 +857,78 @@ def read_checks(ctx, rng, root, m, json_paths=True):
   return bad
 
 
+def member_checks(ctx, rng, root, m, path_reads=3):
+  """Reads that go THROUGH the stored members.
+
+  * documented extension "nested plain containers become symbolic ones": every
+    member that is a container in the reference (dict / list, incl. operands
+    that were instances of dict / list subclasses) is a pg.Dict / pg.List;
+  * a nested location read by path (sym_get, KeyPath.query, chained []) gives
+    the reference's value.
+  Returns [(clause, detail, reference type name)]."""
+  bad = []
+  c = ctx.counters
+
+  def walk(s, mm, path):
+    for k, v in (list(mm.items()) if isinstance(mm, dict) else list(enumerate(mm))):
+      if not isinstance(v, (dict, list)):
+        continue
+      c['member_symbolic_checks'] += 1
+      try:
+        child = s[k]
+      except Exception as e:  # pylint: disable=broad-except
+        bad.append(('member-read', f'[{k!r}] below {path} raised {type(e).__name__}: {e!s:.100}',
+                    type(v).__name__))
+        continue
+      want = pg.Dict if isinstance(v, dict) else pg.List
+      if not isinstance(child, want):
+        bad.append(('member-not-symbolic',
+                    f'member at {path + [k]} is a {type(child).__module__}.'
+                    f'{type(child).__name__}, not a {want.__name__}', type(v).__name__))
+      else:
+        walk(child, v, path + [k])
+
+  walk(root, m, [])
+  if bad:
+    return bad
+  # Path-addressed reads of nested locations.
+  locs = []
+  def collect(mm, path):
+    for k, v in (mm.items() if isinstance(mm, dict) else enumerate(mm)):
+      if path:
+        locs.append(path + [k])
+      if isinstance(v, (dict, list)) and len(path) < 3:
+        collect(v, path + [k])
+  collect(m, [])
+  for path in (rng.sample(locs, path_reads) if len(locs) > path_reads else locs):
+    exp = m
+    for k in path:
+      exp = exp[k]
+    how = rng.choice(['sym_get', 'sym_get[str]', 'query', 'chained'])
+    if how == 'sym_get[str]' and not all(
+        isinstance(k, int) or (isinstance(k, str) and k.isidentifier()) for k in path):
+      how = 'sym_get'
+    c['path_read_checks'] += 1
+    try:
+      if how == 'sym_get':
+        got = root.sym_get(pg.KeyPath(list(path)))
+      elif how == 'sym_get[str]':
+        got = root.sym_get(str(pg.KeyPath(list(path))))
+      elif how == 'query':
+        got = pg.KeyPath(list(path)).query(root)
+      else:
+        got = root
+        for k in path:
+          got = got[k]
+      ok = R.same(R.to_plain(got), exp)
+      detail = f'{how} of {path}: expected {exp!r:.150} got {R.to_plain(got)!r:.150}'
+    except Exception as e:  # pylint: disable=broad-except
+      ok, detail = False, f'{how} of {path} raised {type(e).__name__}: {e!s:.150}'
+    if not ok:
+      bad.append(('read-path-query', detail, how))
+  return bad
+
+
 def cases(ctx):
   return ctx.params['cases']
 
@@ -474,23 +938,77 @@ def sym_of(m):
   return pg.List(m) if isinstance(m, list) else pg.Dict(m)
 
 
+def agrees(s2, before):
+  """True when step `s2` applied to fresh containers holding `before` gives the
+  outcome, the contents and symbolic members of the reference."""
+  try:
+    fresh, m2 = [sym_of(before)], [copy.deepcopy(before)]
+    ms, mres, _ = model_execute(m2, s2)
+    st, res = execute2(fresh, s2)
+    if ms != st:
+      return False
+    if st == 'raise' and R.error_class(res) != R.error_class(mres):
+      return False
+    return R.same(R.to_plain(fresh[0]), m2[0]) and all_members_symbolic(fresh[0])
+  except Exception:  # pylint: disable=broad-except
+    return False
+
+
+def first_plain_member(node):
+  """'dict' / 'list' when a member (at any depth) is a container that is not a
+  symbolic one, else None."""
+  for _, v in node.sym_items():
+    if isinstance(v, (dict, list)):
+      if not isinstance(v, (pg.Dict, pg.List)):
+        return 'dict' if isinstance(v, dict) else 'list'
+      r = first_plain_member(v)
+      if r:
+        return r
+  return None
+
+
+def all_members_symbolic(node):
+  return first_plain_member(node) is None
+
+
 def needs_notify_off(step, before):
   """True when `step` applied to the contents `before` agrees with the model
   once change notification is left on (the mechanism is then '@notify_off')."""
   if not H.notify_suppressed(step):
     return False
-  try:
-    fresh, m2 = [sym_of(before)], [copy.deepcopy(before)]
-    s2 = H.without_notify_off(step)
-    ms, mres, _ = model_execute(m2, s2)
-    st, res = O.execute(fresh, s2)
-    if ms != st:
-      return False
-    if st == 'raise' and R.error_class(res) != R.error_class(mres):
-      return False
-    return R.same(R.to_plain(fresh[0]), m2[0])
-  except Exception:  # pylint: disable=broad-except
-    return False
+  return agrees(H.without_notify_off(step), before)
+
+
+def operand_class(step):
+  """Which non-default operand forms a step uses (harness facts only)."""
+  a = step['args']
+  out = set()
+  fs = forms_in(a)
+  if fs & set(DICT_FORMS):
+    out.add('dict-subclass-operand')
+  if fs & set(LIST_FORMS):
+    out.add('list-subclass-operand')
+  arg = a.get('seq') or a.get('map') or (a.get('form') if 'items' in a else None)
+  if arg in DICT_FORMS or arg == 'row':
+    out.add(('dict' if arg in DICT_FORMS else 'list') + '-subclass-argument')
+  elif arg in ('tuple', 'gen', 'iter'):
+    out.add('iterable-argument')
+  elif arg in ('proxy', 'userdict'):
+    out.add('mapping-argument')
+  elif arg in PAIR_FORMS[1:] or arg == 'pairs+kwargs':
+    out.add('pairs-argument')
+  return sorted(out)
+
+
+def needs_forms(step, before):
+  """The operand class a finding is attributed to: the step disagrees with the
+  reference, the same step with every operand in its built-in form agrees."""
+  oc = operand_class(step)
+  if not oc:
+    return None
+  s2 = dict(step)
+  s2['args'] = strip_forms(step['args'])
+  return '+'.join(oc) if agrees(s2, before) else None
 
 
 def nested_pair(rng, root, m):
@@ -513,37 +1031,62 @@ def nested_pair(rng, root, m):
 def run_case(ctx, i):
   rng = ctx.rng
   c = ctx.counters
-  d0 = initial(rng)
+  d0 = with_forms(rng, initial(rng))
+  ctor = gen_ctor(rng, d0)
   table = d0[1] and all(x[0] in 'LlDd' for x in (
       d0[1] if d0[0] == 'L' else [v for _, v in d0[1]]))
   p_multi = 0.35 if rng.random() < 0.5 or table else 0.08
-  forest = [D.build(d0)]
+  ctx.label = 'construction'
+  forest = [build_root(d0, ctor)]
+  ctx.label = None
   model = [R.build_plain(d0, None)]
+  shown0 = f'{show2(d0)} given as {ctor}'
+  c['ctor:' + ctor] += 1
+  c['operand_subclass_containers'] += len(forms_in(d0)) and 1
   trace, changed = [], 0
+  fresh = model_containers(model[0])       # member containers written last
   for clause, detail in read_checks(ctx, rng, forest[0], model[0]):
     ctx.violation('read-' + clause, 'construction' if clause == 'contents' else 'read-path',
-                  detail, {'initial': D.show(d0)})
+                  detail, {'initial': shown0})
     return
+  for clause, detail, what in member_checks(ctx, rng, forest[0], model[0]):
+    m_ = 'read-path' if clause == 'read-path-query' else 'construction'
+    if clause == 'member-not-symbolic' and forms_in(d0) and all_members_symbolic(
+        build_root(strip_forms(d0), ctor)):
+      m_ = what + '-subclass-operand'
+    ctx.violation(clause, m_, detail, {'initial': shown0})
+    forest[0] = sym_of(model[0])
+    break
   n_steps = rng.randint(ctx.params['steps'] // 2, ctx.params['steps'])
   for _ in range(n_steps):
-    step = gen_step(rng, forest, p_multi)
+    step = gen_step(rng, forest, p_multi, model, 0.35 if fresh else 0.08, fresh)
     if step is None:
       break
+    if step.get('through') and fresh and any(
+        rel[:len(f)] == f for rel, _ in [(step['at'][1] + r, v)
+                                         for r, v in step['args']['updates']] for f in fresh):
+      c['through_rebinds_into_just_written_member'] += 1
     before = copy.deepcopy(model[0])
     mstatus, mres, mnode = model_execute(model, step)
     ctx.label = step['op']
-    status, res = O.execute(forest, step)
+    status, res = execute2(forest, step)
     ctx.label = None
     c['steps'] += 1
     c['op:' + step['op']] += 1
+    for oc in operand_class(step):
+      c['steps_' + oc] += 1
+    if step.get('through'):
+      c['through_rebinds'] += 1
+      if len(step['args']['updates']) > 1:
+        c['through_rebinds_multi_path'] += 1
     if H.notify_suppressed(step):
       c['steps_notify_off'] += 1
     if step.get('multi'):
       c['multi_member_rebinds'] += 1
       if H.notify_suppressed(step):
         c['multi_member_rebinds_notify_off'] += 1
-    trace.append(O.show_step(step))
-    witness = lambda: {'initial': D.show(d0), 'history': trace[-15:]}
+    trace.append(show_step2(step))
+    witness = lambda: {'initial': shown0, 'history': trace[-15:]}
     problem = None
     if mstatus != status:
       problem = ('outcome', f'model: {mstatus} {mres!r:.200}; symbolic: {status} {res!r:.300}')
@@ -564,6 +1107,9 @@ def run_case(ctx, i):
           problem = ('result', f'model {mres!r:.200} symbolic {R.to_plain(res)!r:.200}')
         elif step['op'] != 'Dict.__or__' and not isinstance(res, (pg.List, pg.Dict)):
           problem = ('result', f'copy is a {type(res).__name__}')
+        elif isinstance(res, (pg.List, pg.Dict)) and not all_members_symbolic(res):
+          problem = ('member-not-symbolic', 'the new container holds a plain '
+                     f'{first_plain_member(res)} member', first_plain_member(res))
       elif not R.same(R.to_plain(res), mres):
         problem = ('result', f'model returned {mres!r:.200}, symbolic {R.to_plain(res)!r:.200}')
     bad = read_checks(ctx, rng, forest[0], model[0], json_paths=rng.random() < 0.5)
@@ -574,10 +1120,27 @@ def run_case(ctx, i):
         c['nested_read_rounds'] += 1
         bad = [(cl, 'nested container: ' + dt) for cl, dt in
                read_checks(ctx, rng, pair[0], pair[1], json_paths=rng.random() < 0.25)]
+    mbad = []
+    if not bad:
+      mbad = member_checks(ctx, rng, forest[0], model[0])
     mech = step['op']
-    if (problem or any(cl == 'contents' for cl, _ in bad)) and needs_notify_off(step, before):
-      mech += '@notify_off'
-    if problem:
+    member_mech = {}
+    if problem or mbad or any(cl == 'contents' for cl, _ in bad):
+      oc = needs_forms(step, before)
+      if oc:
+        mech += '/' + oc
+        # A member that stays plain because of the class of the operand: the
+        # operation is immaterial (the same step with built-in operands agrees).
+        for what in ('dict', 'list'):
+          if what + '-subclass-operand' in oc.split('+'):
+            member_mech[what] = what + '-subclass-operand'
+      elif needs_notify_off(step, before):
+        mech += '@notify_off'
+    if problem and problem[0] == 'member-not-symbolic':
+      ctx.violation(problem[0], member_mech.get(problem[2], mech),
+                    f'step {len(trace)}: {trace[-1]}\n{problem[1]}', witness())
+      problem = ('reported',)
+    if problem and problem[0] != 'reported':
       ctx.violation(problem[0], mech, f'step {len(trace)}: {trace[-1]}\n{problem[1]}', witness())
     seen_clause = set()
     for clause, detail in bad:
@@ -587,19 +1150,29 @@ def run_case(ctx, i):
         # right but a read path disagrees with it: attribute to the read path.
         ctx.violation('read-' + clause, mech if clause == 'contents' else 'read-path',
                       f'step {len(trace)}: {trace[-1]}\n{detail}', witness())
-    if problem or bad:
+    seen_clause = set()
+    for clause, detail, what in mbad:
+      if clause not in seen_clause:
+        seen_clause.add(clause)
+        ctx.violation(clause, 'read-path' if clause == 'read-path-query'
+                      else member_mech.get(what, mech),
+                      f'step {len(trace)}: {trace[-1]}\n{detail}', witness())
+    if problem or bad or mbad:
       # heal: re-synchronise the symbolic side from the model
       forest[0] = sym_of(model[0])
       c['heals'] += 1
       if read_checks(ctx, rng, forest[0], model[0]):
         c['abandoned'] += 1
         break
+    fresh = []
     if not R.same(before, model[0]):
       changed += 1
+      if not step.get('through'):
+        fresh = written_containers(before, model[0])[:8]
     if H.total_size(forest) > 300:
       break
   if changed >= 5:
     ctx.mark_nontrivial((tuple(t.split('(')[0].split('.', 1)[-1] for t in trace), repr(model[0])))
   ctx.seen('final_contents', repr(model[0]))
   if i < 2:
-    ctx.sample({'initial': D.show(d0), 'history': trace[:10], 'final': repr(model[0])[:300]})
+    ctx.sample({'initial': shown0, 'history': trace[:10], 'final': repr(model[0])[:300]})
